@@ -65,7 +65,31 @@ func CFP(v reflect.Value) string {
 	return FP(v)
 }
 
-func identityOnly(t reflect.Type) bool { return t.Kind() == reflect.Chan || t.Kind() == reflect.Func }
+// identityOnly: values of t cannot be re-created with equal content (a channel or a func anywhere
+// inside compares by identity under testify's ObjectsAreEqual); such arguments are registered with
+// mock.Anything.
+func identityOnly(t reflect.Type) bool { return identityOnlyD(t, 0) }
+
+func identityOnlyD(t reflect.Type, depth int) bool {
+	if depth > 8 {
+		return true
+	}
+	switch t.Kind() {
+	case reflect.Chan, reflect.Func:
+		return true
+	case reflect.Slice, reflect.Array, reflect.Ptr:
+		return identityOnlyD(t.Elem(), depth+1)
+	case reflect.Map:
+		return identityOnlyD(t.Key(), depth+1) || identityOnlyD(t.Elem(), depth+1)
+	case reflect.Struct:
+		for i := 0; i < t.NumField(); i++ {
+			if identityOnlyD(t.Field(i).Type, depth+1) {
+				return true
+			}
+		}
+	}
+	return false
+}
 
 const anyMatcher = "\x00ANY"
 
@@ -458,7 +482,7 @@ func (r *testifyRun) call(task, oi int, op Op, ops []Op) {
 	e.count++
 	trig := r.trig(m, e.style)
 	if _, isFail := pv.(failNowSentinel); panicked && isFail {
-		r.fail(&Violation{"matching-call-fails-the-test", site, trig, "a call matching expectation #" + fmt.Sprint(e.idx) + " returns", what + " → FailNow: " + short(strings.Join(r.t.Errors[errs0:], " / "), 400)})
+		r.fail(&Violation{"matching-call-fails-the-test", site, trig, "a call matching expectation #" + fmt.Sprint(e.idx) + " returns", what + " → FailNow: " + short(strings.Join(r.t.Errors[errs0:], " / "), 2400)})
 		return
 	}
 	nOut := m.Type.NumOut()
@@ -651,7 +675,7 @@ func (r *testifyRun) cleanup() {
 		r.fail(&Violation{"unmet-expectation-not-reported", site, fmt.Sprintf("unroll=%v", r.unroll), "unmet expectations are reported when the test's cleanup runs", fmt.Sprintf("%d unmet, nothing reported", unmet)})
 	}
 	if unmet == 0 && reported {
-		r.fail(&Violation{"cleanup-reports-met-expectations", site, fmt.Sprintf("unroll=%v", r.unroll), "nothing to report: every expectation was met", short(strings.Join(r.t.Errors[errs0:], " / "), 400)})
+		r.fail(&Violation{"cleanup-reports-met-expectations", site, fmt.Sprintf("unroll=%v", r.unroll), "nothing to report: every expectation was met", short(strings.Join(r.t.Errors[errs0:], " / "), 2400)})
 	}
 }
 
@@ -797,7 +821,7 @@ func tokenMethod(m *methodInfo) bool {
 		if m.Variadic && i == m.Type.NumIn()-1 {
 			continue
 		}
-		if tokenType(m.Type.In(i), 0) {
+		if tokenType(m.Type.In(i), 0) && !identityOnly(m.Type.In(i)) {
 			return true
 		}
 	}
